@@ -804,6 +804,112 @@ theorem runProc_eq_run (np : Nat) (evs : List PEvent) : ∀ P, Sync P →
     rw [h1] at i1 i2
     exact ⟨i1, by rw [h2, i2]⟩
 
+/-! ### kills inside the state write -/
+
+theorem wfC_of_p_eq {s t : St} (h : s.p = t.p) (ht : WfC t) : WfC s :=
+  ⟨by rw [h]; exact ht.cur_eq, by rw [h]; exact ht.idle⟩
+
+theorem sync_p {P : Proc} (h : Sync P) : (loadFile P.file).p = P.mem.p := by
+  rw [h]
+
+theorem stepProc_wfC (np : Nat) (P : Proc) (ev : PEvent) (h : Sync P) (hw : WfC P.mem) :
+    WfC (stepProc np P ev).1.mem := by
+  rw [(stepProc_eq_step np P ev h).1]
+  exact step_wfC np P.mem ev.toEvent hw
+
+/-- with the atomic write, a kill inside `save` leaves the old or the new file - never garbage -/
+theorem fileAfterSaveKill_atomic (old : Option FileState) (new : FileState) (pt : SavePoint) :
+    fileAfterSaveKill true old new pt = old ∨ fileAfterSaveKill true old new pt = some new := by
+  cases pt <;> simp [fileAfterSaveKill]
+
+theorem stepProcA_sync (atomic : Bool) (np : Nat) (P : Proc) (ev : PEventA) : Sync (stepProcA atomic np P ev).1 := by
+  cases ev with
+  | ev e => exact stepProc_sync np P e
+  | saveKill ls o pt => exact sync_loaded _
+  | stopKill pt => exact sync_loaded _
+
+theorem loadFile_saved_p (p : Persist) : (loadFile (some (saveState p))).p = p := load_save p
+
+/-- one event of the ATOMIC process machine, kills inside the state write included: cycle
+    bookkeeping stays well-formed and moves by at most one completed cycle -/
+theorem stepProcA_cycle (np : Nat) (P : Proc) (ev : PEventA) (h : Sync P) (hw : WfC P.mem) :
+    WfC (stepProcA true np P ev).1.mem ∧
+    ((stepProcA true np P ev).1.mem.p.lcf = P.mem.p.lcf ∨
+      ((stepProcA true np P ev).1.mem.p.lcf = some (nextCycle P.mem.p.lcf) ∧ (stepProcA true np P ev).1.mem.p.cur = none)) ∧
+    ∀ e ∈ (stepProcA true np P ev).2, e.cycle = nextCycle P.mem.p.lcf := by
+  cases ev with
+  | ev e =>
+    obtain ⟨h1, h2⟩ := stepProc_eq_step np P e h
+    have hc := step_cycle np P.mem e.toEvent hw
+    refine ⟨stepProc_wfC np P e h hw, ?_, ?_⟩
+    · have hm : (stepProcA true np P (.ev e)).1.mem = (step np P.mem e.toEvent).1 := h1
+      rw [hm]; exact hc.1
+    · show ∀ x ∈ (stepProc np P e).2, _
+      rw [h2]; exact hc.2
+  | saveKill ls o pt =>
+    have hc := step_cycle np P.mem (.slice ls o) hw
+    have hwS := slice_wfC np ls P.mem o hw
+    simp only [step] at hc
+    refine ⟨?_, ?_, hc.2⟩
+    · rcases fileAfterSaveKill_atomic P.file (saveState (slice np ls P.mem o).1.p) pt with hf | hf
+      · exact wfC_of_p_eq (s := (stepProcA true np P (.saveKill ls o pt)).1.mem) (t := P.mem)
+          (by show (loadFile (fileAfterSaveKill true P.file _ pt)).p = _; rw [hf]; exact sync_p h) hw
+      · exact wfC_of_p_eq (s := (stepProcA true np P (.saveKill ls o pt)).1.mem) (t := (slice np ls P.mem o).1)
+          (by show (loadFile (fileAfterSaveKill true P.file _ pt)).p = _; rw [hf]; exact loadFile_saved_p _) hwS
+    · rcases fileAfterSaveKill_atomic P.file (saveState (slice np ls P.mem o).1.p) pt with hf | hf
+      · left
+        show (loadFile (fileAfterSaveKill true P.file _ pt)).p.lcf = _
+        rw [hf, sync_p h]
+      · have hp : (stepProcA true np P (.saveKill ls o pt)).1.mem.p = (slice np ls P.mem o).1.p := by
+          show (loadFile (fileAfterSaveKill true P.file _ pt)).p = _
+          rw [hf]; exact loadFile_saved_p _
+        rw [hp]; exact hc.1
+  | stopKill pt =>
+    refine ⟨?_, ?_, by intro e he; cases he⟩
+    · rcases fileAfterSaveKill_atomic P.file (saveState P.mem.p) pt with hf | hf
+      · exact wfC_of_p_eq (s := (stepProcA true np P (.stopKill pt)).1.mem) (t := P.mem)
+          (by show (loadFile (fileAfterSaveKill true P.file _ pt)).p = _; rw [hf]; exact sync_p h) hw
+      · exact wfC_of_p_eq (s := (stepProcA true np P (.stopKill pt)).1.mem) (t := P.mem)
+          (by show (loadFile (fileAfterSaveKill true P.file _ pt)).p = _; rw [hf]; exact loadFile_saved_p _) hw
+    · left
+      rcases fileAfterSaveKill_atomic P.file (saveState P.mem.p) pt with hf | hf
+      · show (loadFile (fileAfterSaveKill true P.file _ pt)).p.lcf = _
+        rw [hf, sync_p h]
+      · show (loadFile (fileAfterSaveKill true P.file _ pt)).p.lcf = _
+        rw [hf, loadFile_saved_p]
+
+theorem runProcA_inv (np : Nat) (evs : List PEventA) : ∀ P, Sync P → WfC P.mem →
+    Sync (runProcA true np P evs).1 ∧ WfC (runProcA true np P evs).1.mem := by
+  induction evs with
+  | nil => intro P h hw; exact ⟨h, hw⟩
+  | cons ev evs ih =>
+    intro P h hw
+    exact ih _ (stepProcA_sync true np P ev) (stepProcA_cycle np P ev h hw).1
+
+/-- with the atomic write a kill inside the final `save_state` of a slice is, for the crawl, either a
+    slice killed just before its save (old file) or a complete slice followed by a restart (new file) -/
+theorem saveKill_is_kill_or_restart (np : Nat) (P : Proc) (ls : Nat → List Nat) (o : List Bool) (pt : SavePoint)
+    (h : Sync P) :
+    let r := stepProcA true np P (.saveKill ls o pt)
+    (r.1.mem = (step np P.mem (.killed ls o (slice np ls P.mem o).2.length)).1 ∧
+      r.2 = (step np P.mem (.killed ls o (slice np ls P.mem o).2.length)).2) ∨
+    (r.1.mem = (step np (slice np ls P.mem o).1 .restart).1 ∧ r.2 = (slice np ls P.mem o).2) := by
+  rcases fileAfterSaveKill_atomic P.file (saveState (slice np ls P.mem o).1.p) pt with hf | hf
+  · left
+    refine ⟨?_, by simp [stepProcA, step]⟩
+    show loadFile (fileAfterSaveKill true P.file _ pt) = _
+    rw [hf]; exact h
+  · right
+    refine ⟨?_, rfl⟩
+    show loadFile (fileAfterSaveKill true P.file _ pt) = _
+    rw [hf]; exact sync_saved (slice np ls P.mem o).1
+
+theorem runProcA_sync (atomic : Bool) (np : Nat) (evs : List PEventA) :
+    ∀ P, Sync P → Sync (runProcA atomic np P evs).1 := by
+  induction evs with
+  | nil => intro P h; exact h
+  | cons ev evs ih => intro P _; exact ih _ (stepProcA_sync atomic np P ev)
+
 /-! ### a concrete instance used by the `example`s of Props/C27 -/
 
 def exLs : Nat → List Nat := fun i => if i = 1 then [5, 3] else if i = 2 then [9] else []
